@@ -499,6 +499,32 @@ def coqchk(run, files):
     return rc == 0, txt
 
 
+def build_baseline_shoot(run):
+    """the shoot binary of the recorded baseline commit of /repo (/verif/baseline_commit), built from
+    `git archive` into the scratch directory (nothing is written under /repo).  Used ONLY to make the excuse
+    "this failure belongs to a recorded open defect" precise: a failure on an input of an excused class is
+    excused only if the baseline fails on it in the same way.  Returns None when it cannot be built."""
+    f = VERIF / "baseline_commit"
+    if not f.exists():
+        return None
+    commit = f.read_text().split()[0]
+    d = run.scratch / "baseline"
+    out = run.scratch / "bin" / "shoot-baseline"
+    if out.exists():
+        return out
+    d.mkdir(parents=True, exist_ok=True)
+    (run.scratch / "bin").mkdir(exist_ok=True)
+    rc, o, e = sh("git -C %s archive %s | tar -x -C %s" % (REPO, commit, d), timeout=300)
+    if rc != 0:
+        run.log("baseline unavailable:", (o + e)[-300:])
+        return None
+    rc, o, e = sh(["go", "build", "-o", str(out), "./cmd/shoot"], cwd=d, env=go_env(), timeout=900)
+    if rc != 0:
+        run.log("baseline does not build:", e[-300:])
+        return None
+    return out
+
+
 def build_verifprobe(run):
     """build /repo/cmd/verifprobe with -tags verif (L1 function probe); returns its path"""
     b = run.scratch / "bin"
